@@ -1549,7 +1549,7 @@ func (it *interp) doCall(st *state, fr *frame, in *ssa.Call) bool {
 		}
 	}
 	ev := it.callEvent(st, fr, cc, in)
-	if ev.Fn != nil && len(ev.Fn.Blocks) > 0 && it.opts.Inline != nil && it.opts.Inline(ev.Fn, len(st.frames)) {
+	if ev.Fn != nil && len(ev.Fn.Blocks) > 0 && (it.opts.Inline != nil && it.opts.Inline(ev.Fn, len(st.frames)) || it.seeThrough(ev.Fn, len(st.frames))) {
 		it.pushFrame(st, ev, in, false)
 		return true
 	}
@@ -1609,7 +1609,7 @@ func (it *interp) pushFrame(st *state, ev *Event, call ssa.Instruction, fromDefe
 
 // execDeferred runs one deferred call at RunDefers.
 func (it *interp) execDeferred(st *state, fr *frame, d *Event) bool {
-	if d.Fn != nil && len(d.Fn.Blocks) > 0 && it.opts.Inline != nil && it.opts.Inline(d.Fn, len(st.frames)) {
+	if d.Fn != nil && len(d.Fn.Blocks) > 0 && (it.opts.Inline != nil && it.opts.Inline(d.Fn, len(st.frames)) || it.seeThrough(d.Fn, len(st.frames))) {
 		it.pushFrame(st, d, d.Instr, true)
 		return true
 	}
@@ -1620,6 +1620,26 @@ func (it *interp) execDeferred(st *state, fr *frame, d *Event) bool {
 	ev.Res = &Expr{Op: "call", Name: ev.Callee + "@deferred:" + it.siteID(d.Instr), Args: ev.Args}
 	st.events = append(st.events, &ev)
 	return false
+}
+
+// seeThrough: a library function that is not an anchor of the reference tree (an extracted helper) is
+// transparent: it is inlined when it is loop-free and the inline depth is small.
+func (it *interp) seeThrough(fn *ssa.Function, depth int) bool {
+	if depth > 4 || fn.Parent() != nil || !it.prog.isLib(fn) {
+		return false
+	}
+	if knownFuncs[it.prog.FuncName(fn)] {
+		return false
+	}
+	// loop-free?
+	for _, b := range fn.Blocks {
+		for _, s := range b.Succs {
+			if s.Index <= b.Index && s.Dominates(b) {
+				return false
+			}
+		}
+	}
+	return true
 }
 
 // ---- helpers for rules ------------------------------------------------------------------------
